@@ -26,6 +26,9 @@ func variants() []string {
 	var vs []string
 	for _, sc := range scenarios {
 		for _, c := range []int{0, 1} {
+			if c == 1 && sc.OneCap {
+				continue
+			}
 			vs = append(vs, fmt.Sprintf("%s/cap%d", sc.Name, c))
 		}
 	}
@@ -57,12 +60,21 @@ func factory(name string) func() explore.Exec {
 
 // validateModel: the lookup model must agree with the real store, sequentially,
 // for every content of the universe and every (lookup, options) pair used.
-func validateModel() {
+func validateModel(r *common.Run) {
+	var where string
+	if p := common.Guard(func() { validateModelInner(&where) }); p != nil {
+		r.Fail(common.Failure{Check: "seq", Class: "sequential:" + where, Shape: "panic:" + clipS(fmt.Sprint(p), 60),
+			Case: map[string]string{"where": where}, Detail: fmt.Sprintf("a plain sequential lookup (%s) panics: %v", where, p)})
+	}
+}
+
+func validateModelInner(where *string) {
 	for st := 0; st < 1<<uint(len(U)); st++ {
 		_, g := freshGraph(uint8(st))
 		for _, lk := range []string{lkTFS, lkObjects, lkTriples} {
 			for _, opt := range []string{"", "latest", "isTemporal", "isImmutable"} {
 				rec := &lookupRec{in: gin{LK: lk, Opt: opt}}
+				*where = fmt.Sprintf("%s[%s] on %s", lk, opt, maskStr(uint8(st)))
 				lo := optionsFor(opt)
 				var err error
 				if lk == lkObjects {
@@ -131,7 +143,10 @@ func main() {
 		if mk == nil {
 			return false, "unknown scenario variant " + c.Variant
 		}
-		out, vs, oc, bad := explore.Replay(vrt.Config{Diag: true}, mk, c.Choices)
+		sc0, _ := resolve(c.Variant)
+		cfg := sc0.Cfg
+		cfg.Diag = true
+		out, vs, oc, bad := explore.Replay(cfg, mk, c.Choices)
 		if bad != "" {
 			common.Machinery("NONDETERMINISM replay does not fit the program: %s", bad)
 		}
@@ -146,6 +161,13 @@ func main() {
 		}
 		return true, fmt.Sprintf("%s schedule %v: status %s, outcome %s", c.Variant, c.Choices, out.Status, oc)
 	})
+	r.Replayer("seq", func(raw json.RawMessage) (bool, string) {
+		var where string
+		if p := common.Guard(func() { validateModelInner(&where) }); p != nil {
+			return false, fmt.Sprintf("sequential lookup %s panics: %v", where, p)
+		}
+		return true, "sequential lookups agree with the model"
+	})
 	r.Replayer("race", func(raw json.RawMessage) (bool, string) {
 		var c struct{ Variant string }
 		json.Unmarshal(raw, &c)
@@ -154,7 +176,7 @@ func main() {
 			common.Machinery("race companion: %s", rep.Err)
 		}
 		if len(rep.Races) > 0 {
-			return false, fmt.Sprintf("free-running %s under the race detector: %v", c.Variant, rep.Races)
+			return false, fmt.Sprintf("free-running %s under the race detector: %s %v\n%s", c.Variant, rep.Shape, rep.Races, rep.Excerpt)
 		}
 		return true, "no race reported"
 	})
@@ -165,15 +187,18 @@ func main() {
 			common.Machinery("cmd/c07 was built without the vsched overlay (use ./vcheck C07 or cmd/c07/build.sh)")
 		}
 	}
-	validateModel()
+	validateModel(r)
 	r.Assume("scheduling points at synchronisation operations (mutex, rwmutex, waitgroup, channel, select, go) suffice: code between two such operations is treated as atomic; validated, not decided, by the free-running -race companion")
 	r.Assume("RWMutex writer preference, channel and WaitGroup semantics are the runtime's transcription of Go's documented behaviour (self-tests: go test ./explore)")
 	r.Assume("linearizability is judged by porcupine against the set model: an AddTriples batch is one atomic operation, each removed triple its own operation inside the call's interval, a lookup one operation returning its whole result")
 
 	var reports []scenReport
 	totalExec, totalSteps, totalHB, totalOutcomes := 0, int64(0), 0, 0
-	shards := 4
-	deadline := time.Now().Add(time.Duration(r.Pick(100, 780)) * time.Second).UnixMilli()
+	shards := 8
+	budget := time.Duration(r.Pick(100, 780)) * time.Second
+	startAll := time.Now()
+	deadline := startAll.Add(budget / 2).UnixMilli() // bounded phase: first half at most; then the sleep-set phase gets the rest
+
 	type plan struct {
 		variant string
 		sc      *scenario
@@ -235,25 +260,8 @@ func main() {
 		}
 	}
 
-	// sleep-set exhaustive runs
-	ss := run(func(p plan) []explore.Job {
-		if p.sc.Mode != explore.SleepSets {
-			return nil
-		}
-		var js []explore.Job
-		for s := 0; s < shards; s++ {
-			js = append(js, explore.Job{Scenario: p.variant, Opt: explore.Options{Mode: explore.SleepSets, Shard: s, Shards: shards, SplitAt: 4,
-				DeadlineMs: deadline, KeepHB: 400000}})
-		}
-		return js
-	})
-	for _, p := range plans {
-		if m := ss[p.variant]; m != nil {
-			report(p, m, string(explore.SleepSets), m.Complete, -1)
-		}
-	}
 	// bounded runs without reduction: primary for S3, hedge for the others; iterate the bound
-	maxB := r.Pick(2, 3)
+	maxB := r.Pick(3, 4)
 	alive := map[string]bool{}
 	completed := map[string]int{}
 	last := map[string]*explore.Result{}
@@ -272,9 +280,9 @@ func main() {
 			if !alive[p.variant] {
 				return nil
 			}
-			lim := maxB
-			if p.sc.Mode != explore.Bounded {
-				lim = maxB - 1 // hedge: one level less than the primary bounded scenario
+			lim := r.Pick(2, 3) // hedge next to the sleep-set run
+			if p.sc.Mode == explore.Bounded {
+				lim = r.Pick(p.sc.BoundQ, p.sc.BoundT)
 			}
 			if b > lim {
 				return nil
@@ -286,7 +294,7 @@ func main() {
 			}
 			for s := 0; s < n; s++ {
 				js = append(js, explore.Job{Scenario: p.variant, Opt: explore.Options{Mode: explore.Bounded, Bound: b, OnlyLevel: b > 0,
-					Shard: s, Shards: n, DeadlineMs: deadline, KeepHB: 400000}})
+					Shard: s, Shards: n, DeadlineMs: deadline, KeepHB: 400000, Cfg: p.sc.Cfg}})
 			}
 			return js
 		})
@@ -308,9 +316,27 @@ func main() {
 	for _, p := range plans {
 		if m := acc[p.variant]; m != nil {
 			report(p, m, string(explore.Bounded), false, completed[p.variant])
-			if p.sc.Mode == explore.Bounded && completed[p.variant] < minBound {
+			if p.sc.Name == "S3" && completed[p.variant] < minBound {
 				minBound = completed[p.variant]
 			}
+		}
+	}
+	// sleep-set exhaustive runs
+	deadline = startAll.Add(budget).UnixMilli()
+	ss := run(func(p plan) []explore.Job {
+		if p.sc.Mode != explore.SleepSets {
+			return nil
+		}
+		var js []explore.Job
+		for s := 0; s < shards; s++ {
+			js = append(js, explore.Job{Scenario: p.variant, Opt: explore.Options{Mode: explore.SleepSets, Shard: s, Shards: shards, SplitAt: 6, Cfg: p.sc.Cfg,
+				DeadlineMs: deadline, KeepHB: 400000}})
+		}
+		return js
+	})
+	for _, p := range plans {
+		if m := ss[p.variant]; m != nil {
+			report(p, m, string(explore.SleepSets), m.Complete, -1)
 		}
 	}
 	sort.Slice(reports, func(i, j int) bool {
@@ -324,8 +350,16 @@ func main() {
 	comp := map[string]interface{}{}
 	iters := r.Pick(150, 1500)
 	clean := 0
-	for _, p := range plans {
-		rep := runCompanion(p.variant, iters)
+	reps := make([]compReport, len(plans))
+	common.ParallelFor(len(plans), func(i int) {
+		if plans[i].sc.Info {
+			reps[i] = compReport{Err: "informational scenario (deadlocks by design when free-running)"}
+			return
+		}
+		reps[i] = runCompanion(plans[i].variant, iters)
+	})
+	for i, p := range plans {
+		rep := reps[i]
 		if rep.Err != "" {
 			comp[p.variant] = "not run: " + rep.Err
 			continue
@@ -335,12 +369,10 @@ func main() {
 			comp[p.variant] = fmt.Sprintf("%d free runs, no race reported", rep.Runs)
 			continue
 		}
-		comp[p.variant] = map[string]interface{}{"runs": rep.Runs, "races": rep.Races}
-		for _, rc := range rep.Races {
-			r.Fail(common.Failure{Check: "race", Class: p.sc.Class, Shape: "data-race:" + rc,
-				Case:   map[string]string{"Variant": p.variant},
-				Detail: fmt.Sprintf("free-running %s (real sync, no scheduler) under the Go race detector reports a data race at %s\n%s", p.variant, rc, rep.Excerpt)})
-		}
+		comp[p.variant] = map[string]interface{}{"runs": rep.Runs, "racing_functions": rep.Races, "shape": rep.Shape}
+		r.Fail(common.Failure{Check: "race", Class: p.sc.Class, Shape: rep.Shape,
+			Case:   map[string]string{"Variant": p.variant},
+			Detail: fmt.Sprintf("free-running %s (real sync, no scheduler) under the Go race detector reports data races in %v\n%s", p.variant, rep.Races, rep.Excerpt)})
 	}
 	r.Set("race_companion", comp)
 	r.Set("race_companion_clean_variants", clean)
@@ -358,7 +390,8 @@ func main() {
 		minBound = -1
 	}
 	r.Set("bound_completed_S3", minBound)
-	r.Set("rule", "per scenario variant (S1,S2,S4,S5,S7 x result-channel capacity 0/1): every Mazurkiewicz trace of the synchronisation operations (sleep sets, unbounded) plus every schedule with <= bound-1 deviations without reduction; S3 (shared LookupOptions, racy by design): every schedule with <= bound deviations, no reduction")
+	r.Set("bound_completed_S6", completed["S6/cap0"])
+	r.Set("rule", "per scenario variant (S1,S2,S4,S5,S7 x result-channel capacity 0/1): every Mazurkiewicz trace of the synchronisation operations (sleep sets, unbounded) plus every schedule with <= bound-1 deviations without reduction; S3 (shared LookupOptions, racy by design) and S6 (BQL INSERT || 2-clause SELECT, 25 threads): every schedule with <= bound deviations, no reduction")
 	if b, err := os.ReadFile(filepath.Join(common.Root(), "work/instr/c07/inventory.json")); err == nil {
 		var inv map[string]interface{}
 		if json.Unmarshal(b, &inv) == nil {
@@ -399,11 +432,16 @@ func instrumented() bool {
 // ---- free-running companion -------------------------------------------------------------------------
 
 type compReport struct {
+	Shape   string
 	Runs    int
 	Races   []string
 	Excerpt string
 	Err     string
 }
+
+var lookupFn = regexp.MustCompile(`^memory\.\(\*memory\)\.(Objects|Subjects|Predicates\w*|Triples\w*)(\.func\d+)?$`)
+
+var fatalRe = regexp.MustCompile(`(?m)^fatal error: (.*)$`)
 
 var raceSite = regexp.MustCompile(`(?m)^(?:Previous )?(?:[Ww]rite|[Rr]ead) at 0x[0-9a-f]+ by goroutine \d+:\n\s+(\S+)\(`)
 
@@ -422,9 +460,7 @@ func runCompanion(variant string, n int) compReport {
 	cmd.Env = append(os.Environ(), "GORACE=halt_on_error=0 exitcode=0")
 	var out, eb bytes.Buffer
 	cmd.Stdout, cmd.Stderr = &out, &eb
-	if err := cmd.Run(); err != nil {
-		return compReport{Err: fmt.Sprintf("%v: %s", err, clipS(eb.String(), 800))}
-	}
+	runErr := cmd.Run()
 	rep := compReport{Runs: n}
 	seen := map[string]bool{}
 	for _, m := range raceSite.FindAllStringSubmatch(eb.String(), -1) {
@@ -440,9 +476,27 @@ func runCompanion(variant string, n int) compReport {
 			rep.Races = append(rep.Races, fn)
 		}
 	}
+	if m := fatalRe.FindStringSubmatch(eb.String()); m != nil {
+		// the Go runtime itself aborted the free run (e.g. "concurrent map writes")
+		rep.Races = append(rep.Races, "runtime-fatal:"+strings.ReplaceAll(m[1], " ", "-"))
+	} else if runErr != nil && len(rep.Races) == 0 {
+		return compReport{Err: fmt.Sprintf("%v: %s", runErr, clipS(eb.String(), 800))}
+	}
 	sort.Strings(rep.Races)
 	if len(rep.Races) > 0 {
 		rep.Excerpt = clipS(eb.String(), 2500)
+		// shape: which kind of code races with which
+		onlyLookups := true
+		for _, fn := range rep.Races {
+			if !lookupFn.MatchString(fn) {
+				onlyLookups = false
+			}
+		}
+		if onlyLookups {
+			rep.Shape = "data-race:memory-lookup-vs-memory-lookup"
+		} else {
+			rep.Shape = "data-race:" + strings.Join(rep.Races, ",")
+		}
 	}
 	return rep
 }
